@@ -228,6 +228,10 @@ var routings = []struct{ id, expr string }{
 	{"quasiquote", "(quasiquote %s)"},
 	{"macro-rest", "(mac-rest 3 1 2)"},
 	{"append-copy", "(append 'list %s)"}, // control: a copy, mutating it must not matter either
+	{"slice-vector", "(slice 'vector %s 0 3)"},
+	{"append-vector", "(append 'vector %s)"},
+	{"apply-rest-list", "(apply (lambda (&rest r) r) %s)"},
+	{"funcall-rest-view", "((lambda (&rest r) (cdr r)) 0 3 1 2)"},
 }
 
 var literals = []struct{ id, text string }{
@@ -356,11 +360,11 @@ func tableRouting(r *core.Run) {
 	}
 	var jobs []job
 	nfill := 3
-	rts := []int{0, 1, 2, 4, 6}
+	rts := []int{0, 1, 2, 4, 6, 8, 10}
 	lits := []int{0, 1}
 	if r.Thorough() {
 		nfill = len(fillers)
-		rts = []int{0, 1, 2, 3, 4, 5, 6, 7}
+		rts = []int{0, 1, 2, 3, 4, 5, 6, 7, 8, 9, 10, 11}
 		lits = []int{0, 1, 2, 3}
 	}
 	for _, c := range cs {
@@ -419,7 +423,9 @@ var concurrentPrograms = []string{
 	"(defun h (&key a b) (list a b)) (h :a '(2 1) :b (stable-sort < '(2 1)))",
 	"(set 'm (sorted-map 'k '(2 1))) (assoc! m 'j '(9 8)) (stable-sort < (get m 'k)) (list m '(2 1))",
 	"(defun cnt () (let ([n 0]) (lambda () (set! n (+ n 1))))) (set 'c (cnt)) (funcall c) (funcall c)",
-	"(list (gensym) (gensym)) (defmacro sw (a b) (let ([t (gensym)]) (quasiquote (let ([(unquote t) (unquote a)]) (list (unquote b) (unquote t)))))) (sw 1 2)",
+	"(defmacro sw (a b) (let ([t (gensym)]) (quasiquote (let ([(unquote t) (unquote a)]) (list (unquote b) (unquote t)))))) (list (gensym) (sw 1 2) (gensym) (macroexpand '(sw 3 4)))",
+	"(defmacro idm (x) x) (defmacro wrap (x) (quasiquote (list (unquote x)))) (list (funcall (idm #'car) '(1 2)) (funcall (idm #^(+ % 1)) 2) (wrap #'cdr) (funcall (car (wrap #^(* % 2))) 4))",
+	"(apply (lambda (&rest r) (stable-sort < r)) '(3 1 2)) '(3 1 2)",
 	"(ignore-errors (error 'boom '(3 1 2))) (handler-bind ([boom (lambda (c &rest d) (stable-sort < (car d)))]) (error 'boom '(3 1 2)))",
 	"(labels ([lp (n acc) (if (= n 0) acc (lp (- n 1) (cons n acc)))]) (stable-sort > (lp 5 '())))",
 	"(map 'list (lambda (x) (stable-sort < x)) '((3 1 2) (9 8 7)))",
@@ -728,7 +734,7 @@ func freeRunning(r *core.Run) {
 }
 
 func run(r *core.Run) {
-	r.Rule("A: every registered callable of a stdlib runtime x every argument position (<=3) x filler tuple x routing of a program literal into that position (quoted literal, cdr view, slice view, nested element, &rest list, quasiquote output, macro &rest list, append copy) x literal x follow-up mutator (none, stable-sort, append!, sort of the literal itself): shared parse loaded twice in one runtime and once in another vs a fresh parse; " +
+	r.Rule("A: every registered callable of a stdlib runtime x every argument position (<=3) x filler tuple x routing of a program literal into that position (quoted literal, cdr view, slice 'list view, nested element, &rest list, quasiquote output, macro &rest list, append copy, slice 'vector, append 'vector, apply into a &rest list, &rest view) x literal x follow-up mutator (none, stable-sort, append!, sort of the literal itself): shared parse loaded twice in one runtime and once in another vs a fresh parse; " +
 		"B: BFS over all load histories (runtime index per load, canonical numbering) up to the depth bound for every hand-written program; " +
 		"C: every schedule of K runtimes sharing one Program with at most the preemption bound, scheduling point = every evaluation step; invariants evaluated in every global state. Non-trivial: routing programs distinct by text; schedule programs by text")
 	r.Assume("the parsed tree is observed through lisp.SealedASTFingerprint plus an independent structural dump (type, name, numbers, quote/seal flags, positions, children) and lisp.TakeSingletonSnapshot")
